@@ -61,6 +61,24 @@ def cases(ctx):
             yield c
 
 
+def twins(ctx, case):
+    """Files that look alike from outside, judged straight after the case in the same process: same size under the
+    same descriptor number with other content; coordinate blocks that are byte-identical under another arity."""
+    if case.get("kind") != "entries" or case.get("twin") or case.get("big_array") or len(case["entries"]) > 400:
+        return
+    r = ctx.rng.random()
+    if r < 0.25:
+        t = indx.same_size_twin(case, ctx.rng)
+        if t is not None:
+            ctx.count("class:twin_file_of_the_same_size")
+            yield t
+    elif r < 0.33:
+        a, b = indx.reinterpreted_twins(ctx.rng)
+        ctx.count("class:twin_files_with_byte_identical_coordinate_blocks")
+        yield a
+        yield b
+
+
 def judge(ctx, case):
     if case["kind"] == "index":
         return judge_index(ctx, case)
